@@ -1,1 +1,163 @@
-From NV.C01 Require Import Model Exec.
+(* C01 - property theorems.  The generic statements hold over every
+   commutative ring with decidable (Leibniz) equality - integers, canonical
+   rationals, polynomial (symbolic) entries; they are instantiated at Z, the
+   instance the correspondence check evaluates against the implementation. *)
+From Coq Require Import String.
+From Coq Require Import List Arith Lia Bool ZArith Permutation Ring.
+From NV.Lib Require Import RingMat.
+From NV.C01 Require Import Model Exec Proofs ProofsZ.
+Import ListNotations.
+
+Section Generic.
+  Variable R : Type.
+  Variables (r0 r1 : R) (radd rmul rsub : R -> R -> R) (ropp : R -> R).
+  Variable reqb : R -> R -> bool.
+  Hypothesis Rth : ring_theory r0 r1 radd rmul rsub ropp (@eq R).
+  Hypothesis reqb_spec : forall x y, reqb x y = true <-> x = y.
+
+  Local Notation WFr := (WF R r0 r1).
+  Local Notation Apply := (apply R r0 r1 radd rmul).
+  Local Notation Happly := (happly r0 r1 radd rmul).
+  Local Notation Compose := (compose R r0 r1 radd rmul reqb).
+
+  (* Evaluating a composition of ANY finite chain of maps = applying them one after the other. *)
+  Theorem compose_apply : forall affs c,
+    Forall WFr affs -> Compose affs = Ok c ->
+    WFr c /\
+    exists lastA, last affs lastA = lastA /\ In lastA affs /\
+      cnames (adom c) = cnames (adom lastA) /\ cname (adom c) = cname (adom lastA) /\
+      forall x, length x = cs_ndim (adom lastA) ->
+        Apply c x = Ok (apply_seq R r0 r1 radd rmul (rev affs) x).
+  Proof. exact (compose_apply_gen R r0 r1 radd rmul rsub ropp reqb Rth reqb_spec). Qed.
+
+  Theorem compose_refuses_mismatched_systems : forall f g,
+    WFr g -> cs_eqb (adom f) (arng g) = false -> exists e, Compose [f; g] = Err e.
+  Proof. exact (compose_refuses_mismatch R r0 r1 radd rmul reqb). Qed.
+
+  Theorem compose_only_raises_value_errors : forall rest cur e,
+    compose_from R r0 r1 radd rmul reqb cur rest = Err e -> e = EValue.
+  Proof. exact (compose_errors_are_value_errors R r0 r1 radd rmul reqb). Qed.
+
+  (* Reordering the input coordinates with ANY permutation: every named input tuple
+     still maps to the same output values. *)
+  Theorem reordered_domain_preserves_named_mapping : forall a order b (g : nat -> R),
+    WFr a -> reordered_domain R r0 r1 radd rmul reqb a order = Ok b ->
+    Apply b (map g order) = Apply a (map g (seq 0 (cs_ndim (adom a)))) /\
+    cnames (adom b) = map (fun i => nth i (cnames (adom a)) EmptyString) order /\
+    cnames (arng b) = cnames (arng a) /\ Permutation order (seq 0 (cs_ndim (adom a))).
+  Proof. exact (reorder_domain_named R r0 r1 radd rmul rsub ropp reqb Rth reqb_spec). Qed.
+
+  Theorem reordered_range_preserves_named_mapping : forall a order b x,
+    WFr a -> reordered_range R r0 r1 radd rmul reqb a order = Ok b -> length x = cs_ndim (adom a) ->
+    Apply b x = Ok (map (fun o => nth o (Happly (amat a) x) r0) order) /\
+    cnames (arng b) = map (fun i => nth i (cnames (arng a)) EmptyString) order /\
+    cnames (adom b) = cnames (adom a) /\ Permutation order (seq 0 (cs_ndim (arng a))).
+  Proof. exact (reorder_range_named R r0 r1 radd rmul rsub ropp reqb Rth reqb_spec). Qed.
+
+  Theorem renamed_domain_only_relabels : forall a nn b x,
+    WFr a -> renamed_domain R r0 r1 radd rmul reqb a nn = Ok b -> length x = cs_ndim (adom a) ->
+    Apply b x = Apply a x /\
+    cnames (adom b) = rename_list (cnames (adom a)) nn /\ cnames (arng b) = cnames (arng a).
+  Proof. exact (rename_domain_relabels R r0 r1 radd rmul rsub ropp reqb Rth reqb_spec). Qed.
+
+  Theorem renamed_range_only_relabels : forall a nn b x,
+    WFr a -> renamed_range R r0 r1 radd rmul reqb a nn = Ok b -> length x = cs_ndim (adom a) ->
+    Apply b x = Apply a x /\
+    cnames (arng b) = rename_list (cnames (arng a)) nn /\ cnames (adom b) = cnames (adom a).
+  Proof. exact (rename_range_relabels R r0 r1 radd rmul rsub ropp reqb Rth reqb_spec). Qed.
+
+  (* An inverse map (built around whatever matrix the linear-algebra oracle returned)
+     undoes its map whenever that matrix is a two-sided inverse; the systems are swapped. *)
+  Theorem inverse_undoes_map : forall a Minv b x y,
+    WFr a -> inverse_with R r0 r1 reqb a Minv = Ok b ->
+    mm r0 radd rmul (S (cs_ndim (adom a))) Minv (amat a) = mid r0 r1 (S (cs_ndim (adom a))) ->
+    mm r0 radd rmul (S (cs_ndim (arng a))) (amat a) Minv = mid r0 r1 (S (cs_ndim (arng a))) ->
+    length x = cs_ndim (adom a) -> length y = cs_ndim (arng a) ->
+    Happly (amat b) (Happly (amat a) x) = x /\ Happly (amat a) (Happly (amat b) y) = y /\
+    cnames (adom b) = cnames (arng a) /\ cnames (arng b) = cnames (adom a).
+  Proof. exact (inverse_undoes R r0 r1 radd rmul rsub ropp reqb Rth reqb_spec). Qed.
+
+  (* A product map acts independently on each block of coordinates. *)
+  Theorem product_acts_blockwise : forall a b inn outn p x y,
+    WFr a -> WFr b -> product R r0 r1 reqb [a; b] inn outn = Ok p ->
+    length x = cs_ndim (adom a) -> length y = cs_ndim (adom b) ->
+    Apply p (x ++ y) = Ok (Happly (amat a) x ++ Happly (amat b) y) /\
+    cnames (adom p) = cnames (adom a) ++ cnames (adom b) /\
+    cnames (arng p) = cnames (arng a) ++ cnames (arng b).
+  Proof. exact (product2_blockwise R r0 r1 radd rmul rsub ropp reqb Rth reqb_spec). Qed.
+
+  Theorem append_axis_leaves_rest_untouched : forall a iname oname start step b x t,
+    WFr a -> append_io_dim R r0 r1 reqb a iname oname start step = Ok b -> length x = cs_ndim (adom a) ->
+    Apply b (x ++ [t]) = Ok (Happly (amat a) x ++ [radd (rmul step t) start]).
+  Proof. exact (append_io_dim_apply R r0 r1 radd rmul rsub ropp reqb Rth reqb_spec). Qed.
+
+  Theorem shifted_domain_origin_apply : forall a d nm b x,
+    WFr a -> shifted_domain_origin R r0 r1 radd rmul reqb a d nm = Ok b -> length x = cs_ndim (adom a) ->
+    Apply b x = Apply a (vadd radd x d) /\ cnames (adom b) = cnames (adom a) /\ cname (adom b) = nm /\
+    cnames (arng b) = cnames (arng a).
+  Proof. exact (shift_domain_apply R r0 r1 radd rmul rsub ropp reqb Rth reqb_spec). Qed.
+
+  Theorem shifted_range_origin_apply : forall a d nm b x,
+    WFr a -> shifted_range_origin R r0 r1 radd rmul ropp reqb a d nm = Ok b -> length x = cs_ndim (adom a) ->
+    Apply b x = Ok (vadd radd (Happly (amat a) x) (map ropp d)) /\ cnames (arng b) = cnames (arng a) /\
+    cname (arng b) = nm /\ cnames (adom b) = cnames (adom a).
+  Proof. exact (shift_range_apply R r0 r1 radd rmul rsub ropp reqb Rth reqb_spec). Qed.
+End Generic.
+
+Print Assumptions compose_apply.
+Print Assumptions compose_refuses_mismatched_systems.
+Print Assumptions reordered_domain_preserves_named_mapping.
+Print Assumptions reordered_range_preserves_named_mapping.
+Print Assumptions renamed_domain_only_relabels.
+Print Assumptions renamed_range_only_relabels.
+Print Assumptions inverse_undoes_map.
+Print Assumptions product_acts_blockwise.
+Print Assumptions append_axis_leaves_rest_untouched.
+Print Assumptions shifted_domain_origin_apply.
+Print Assumptions shifted_range_origin_apply.
+
+(* Every map produced by ANY finite program of operations (compose / product / reorder /
+   rename / inverse / shift-origin / append-drop-axis) is a well-formed affine map:
+   matrix shape = coordinate counts + 1, bottom row 0..0 1, coherent dtypes. *)
+Theorem wf_preserved_by_every_program : forall ops env,
+  Forall ZWF env ->
+  (forall env', length env <= length env' -> Forall (fun o => op_ok env' o) ops) ->
+  Forall ZWF (env_after env ops).
+Proof. exact program_wf. Qed.
+Print Assumptions wf_preserved_by_every_program.
+
+(* the constructor establishes the invariant (so every implementation object the
+   correspondence feeds to the model satisfies the theorems' hypotheses) *)
+Theorem constructor_establishes_wf : forall d r mdt M a, zmk_aff d r mdt M = Ok a -> ZWF a.
+Proof. exact zmk_wf. Qed.
+Print Assumptions constructor_establishes_wf.
+
+(* ---- non-vacuity: concrete maps meeting the hypotheses ---- *)
+Open Scope string_scope.
+Definition ex_dom := {| cnames := ["i"; "j"; "k"]; cname := "in"; cdt := 1 |}.
+Definition ex_rng := {| cnames := ["x"; "y"]; cname := "out"; cdt := 1 |}.
+Definition ex_M : list (list Z) := [[1; 2; 0; 5]; [0; -1; 3; 7]; [0; 0; 0; 1]]%Z.
+
+Example ex_three_in_two_out :
+  exists a, zmk_aff ex_dom ex_rng 1 ex_M = Ok a /\ ZWF a /\ zapply a [1; 1; 1]%Z = Ok [8; 9]%Z.
+Proof.
+  destruct (zmk_aff ex_dom ex_rng 1 ex_M) as [a|] eqn:E; [|vm_compute in E; discriminate].
+  exists a. split; [reflexivity|]. split; [now apply zmk_wf in E|].
+  vm_compute in E. injection E as <-. reflexivity.
+Qed.
+
+(* a 3-cycle reorder of the domain: names and columns move together *)
+Example ex_three_cycle_reorder :
+  match zmk_aff ex_dom ex_rng 1 ex_M with
+  | Ok a => match zreordered_domain a [1; 2; 0] with
+            | Ok b => cnames (adom b) = ["j"; "k"; "i"] /\
+                      zapply b [20; 30; 10]%Z = zapply a [10; 20; 30]%Z
+            | Err _ => False end
+  | Err _ => False end.
+Proof. vm_compute. split; reflexivity. Qed.
+
+Example ex_mismatch_refused :
+  match zmk_aff ex_dom ex_rng 1 ex_M with
+  | Ok a => zcompose [a; a] = Err EValue
+  | Err _ => False end.
+Proof. vm_compute. reflexivity. Qed.
